@@ -220,6 +220,11 @@ def gen_debugger():
                         for evalex in BOOLS:
                             for pin_on in BOOLS:
                                 outs.append(observe(cmd, secret, host, cookie, frame, evalex, pin_on))
+    ROWLEN = len(COOKIES) * len(FRAMES) * 2 * 2
+    packed = []
+    for i in range(0, len(outs), ROWLEN):
+        chunk = [min(o, 15) for o in outs[i : i + ROWLEN]]
+        packed.append("0x" + "".join("%x" % d for d in reversed(chunk)))
     default_trusted = Rig(False, False).app.trusted_hosts
     hosts = []
     for h, k in HOSTS:
@@ -243,11 +248,22 @@ def hosts : List (Option (List Char) × Nat × Nat) := {lean_list(hosts, 1)}
 /-- `DebuggedApplication.trusted_hosts` default -/
 def defaultTrusted : List (List Char) := [{", ".join("[" + ", ".join(f"Char.ofNat {ord(c)}" for c in t) + "]" for t in default_trusted)}]
 
+/-- number of points per packed row: the four fastest dimensions (cookie x frame x evalex x pin) -/
+def rowLen : Nat := {ROWLEN}
+
 /-- observed outcome of the real `DebuggedApplication.__call__` for every point of the product, in
-mixed-radix order of `dims` (last dimension fastest): 0 inner app ran, 1 resource 200, 2 resource
-404, 3 SecurityError (400), 4 the spy frame's eval ran, 5 console page, 6 printpin logged,
-7 printpin answered without logging, 8+2*auth+exhausted pinauth JSON, 99 anything else -/
-def outcomes : List Nat := {lean_list([str(o) for o in outs], 40)}
+mixed-radix order of `dims` (last dimension fastest), packed {ROWLEN} points per number as hex digits
+(least significant digit = first point): 0 inner app ran, 1 resource 200, 2 resource 404,
+3 SecurityError (400), 4 the spy frame's eval ran, 5 console page, 6 printpin logged,
+7 printpin answered without logging, 8+2*auth+exhausted pinauth JSON, f anything else -/
+def rows : List Nat := {lean_list(packed, 4)}
+
+def digitsOf : Nat → Nat → List Nat
+  | 0, _ => []
+  | k + 1, n => n % 16 :: digitsOf k (n / 16)
+
+/-- one outcome code per point of the product -/
+def outcomes : List Nat := rows.flatMap (digitsOf rowLen)
 
 end Wz.Gen.Debugger
 """
